@@ -308,6 +308,7 @@ Theorem agree_C18_sound i o' : agree_C18 (i, o') = true ->
   match model_C18 i with
   | Ok o => o = o'
   | Crash 3 => o' = OCrash
+  | Crash 1 => o' = OCrash
   | Crash 2 => o' = OIllFormed
   | _ => False
   end.
